@@ -4,7 +4,6 @@
 #
 # This module is liberally borrowed (with modifications) from:
 # https://raw.githubusercontent.com/benoitc/http-parser/master/http_parser/pyparser.py
-import contextlib
 import re
 import zlib
 from sys import maxsize
@@ -363,8 +362,10 @@ class HttpParser:
         te = self._headers.get('transfer-encoding', '').lower()
 
         if clen is not None:
-            with contextlib.suppress(ValueError):
-                self._clen_rest = self._clen = int(clen)
+            # Content-Length = 1*DIGIT: int() would also take a sign, '_' or non-ASCII digits
+            if not (clen.isascii() and clen.isdigit()):
+                raise InvalidHeader('invalid Content-Length %s' % clen)
+            self._clen_rest = self._clen = int(clen)
         else:
             self._chunked = te == 'chunked'
             if not self._chunked:
